@@ -359,6 +359,16 @@ pub(crate) trait CKKSAddDefault<BE: Backend> {
             cst_znx.log_delta(),
             cst_znx.effective_k(),
         )?;
+        let digits = cst_znx.re().map_or(0, |c| c.len()).max(cst_znx.im().map_or(0, |c| c.len()));
+        if digits > dst.size() {
+            return Err(crate::CKKSCompositionError::PlaintextAlignmentImpossible {
+                op: "ckks_add_pt_const_znx_into",
+                ct_log_budget: dst.log_budget(),
+                pt_log_delta: cst_znx.log_delta(),
+                pt_max_k: digits * dst.base2k().as_usize(),
+            }
+            .into());
+        }
         let n = dst.n().as_usize();
         if let Some(coeff) = cst_znx.re() {
             for (limb, digit) in coeff.iter().enumerate() {
